@@ -215,9 +215,13 @@ TableErr ==
                    xi[2] <= Len(T.ref.msgs[xi[1]]) /\ T.ref.msgs[xi[1]][xi[2]] # Msgs(xi[1])[xi[2]]}
       badlog == {nj \in UNION {{<<n, j>> : j \in 1..Len(Log(n))} : n \in Nodes} :
                    nj[2] <= Len(T.reflog[nj[1]]) /\ T.reflog[nj[1]][nj[2]] # Log(nj[1])[nj[2]]}
+      \* a (truncated) record still holds every message its recorded steps consumed
+      short == {x \in Conns : Len(Msgs(x)) < Cardinality({i \in 1..Len(T.ref.msgs[x]) : T.ref.msgs[x][i].seq_in < Len(Steps(ConnC(x).dst))})}
   IN IF badrow # {} THEN LET nk == CHOOSE z \in badrow : TRUE IN Err("Deterministic", nk, T.ref.steps[nk[1]][nk[2]], Steps(nk[1])[nk[2]])
      ELSE IF badmsg # {} THEN LET xi == CHOOSE z \in badmsg : TRUE IN Err("DeterministicMsg", xi, T.ref.msgs[xi[1]][xi[2]], Msgs(xi[1])[xi[2]])
      ELSE IF badlog # {} THEN LET nj == CHOOSE z \in badlog : TRUE IN Err("InertLog", nj, T.reflog[nj[1]][nj[2]], Log(nj[1])[nj[2]])
+     ELSE IF short # {} THEN LET x == CHOOSE z \in short : TRUE IN
+          Err("RecordMessagesComplete", x, Cardinality({i \in 1..Len(T.ref.msgs[x]) : T.ref.msgs[x][i].seq_in < Len(Steps(ConnC(x).dst))}), Len(Msgs(x)))
      ELSE NoErr
 
 FinalErr ==
